@@ -7,7 +7,9 @@
 //	getcert <id>:<tok hex> <raw hex> <norm hex|!> <powOk>:<kind> <getFail> <prov cert|fail|empty> => <res> <ncerts|-> <called>
 //	sign    <id>:<tok hex> <raw hex> <norm hex|!> <powOk>:<kind> <getFail> <prov> <algo> <dlen> <key kind> <isSigner><signOk> => <res> <called> <sig verifies 1|0|->
 //	ttl <leaf|der|nilcert|noleaf|badder> <d ns|-> => <ttl ns>
-//	loader <prov> <d0 ns|-> <d1 ns|-> => <ttl ns> <res>
+//	loader <prov> <d0 ns|-> <dp ns|-> <d1 ns|-> <provider latency ns> => <ttl ns> <res>
+//	    d0 / dp / d1 = NotAfter minus the clock read before the loader call / inside the certificate provider right
+//	    before it returns (after the scripted latency) / after the loader returned
 package main
 
 import (
@@ -355,11 +357,18 @@ type provider struct {
 	cert   *tls.Certificate
 	calls  int
 	gotSNI string
+	// scripted latency of the next lookups (slow issuance / slow storage) and the clock right before returning
+	delay time.Duration
+	retAt time.Time
 }
 
 func (p *provider) GetCertificateWithContext(ctx context.Context, chi *tls.ClientHelloInfo) (*tls.Certificate, error) {
 	p.calls++
 	p.gotSNI = chi.ServerName
+	if p.delay > 0 {
+		time.Sleep(p.delay)
+	}
+	defer func() { p.retAt = time.Now() }()
 	switch p.kind {
 	case "fail":
 		return nil, errors.New("scripted provider failure")
@@ -582,8 +591,8 @@ func (x *runner) ttl(kind string, d time.Duration) {
 	x.r.Count("ttl:" + kind)
 }
 
-func (x *runner) loader(prov string, d time.Duration, withLeaf bool) {
-	x.prov.kind, x.prov.calls = prov, 0
+func (x *runner) loader(prov string, d time.Duration, withLeaf bool, lat time.Duration) {
+	x.prov.kind, x.prov.calls, x.prov.delay = prov, 0, lat
 	na := time.Now().Add(d)
 	if withLeaf {
 		x.prov.cert = &tls.Certificate{Certificate: [][]byte{[]byte("chain")}, Leaf: &x509.Certificate{NotAfter: na, Raw: []byte("raw")}}
@@ -594,9 +603,11 @@ func (x *runner) loader(prov string, d time.Duration, withLeaf bool) {
 	t0 := time.Now()
 	ttl, _, valErr, hasCert, loadErr := x.srv.VerifC30KeylessLoader(ctx, "loader.customer.org")
 	t1 := time.Now()
-	d0, d1 := "-", "-"
-	if withLeaf && prov == "cert" {
-		d0, d1 = strconv.FormatInt(int64(na.Sub(t0)), 10), strconv.FormatInt(int64(na.Sub(t1)), 10)
+	tp := x.prov.retAt
+	x.prov.delay = 0
+	d0, dp, d1 := "-", "-", "-"
+	if withLeaf && prov == "cert" && x.prov.calls == 1 {
+		d0, dp, d1 = strconv.FormatInt(int64(na.Sub(t0)), 10), strconv.FormatInt(int64(na.Sub(tp)), 10), strconv.FormatInt(int64(na.Sub(t1)), 10)
 	}
 	res := "cert"
 	if loadErr != nil {
@@ -604,9 +615,33 @@ func (x *runner) loader(prov string, d time.Duration, withLeaf bool) {
 	} else if valErr != nil || !hasCert {
 		res = "cachederr"
 	}
-	x.r.Emit("loader "+prov+" "+d0+" "+d1, strconv.FormatInt(int64(ttl), 10)+" "+res)
-	x.r.Case("loader" + prov + strconv.FormatInt(int64(d), 10))
+	x.r.Emit("loader "+prov+" "+d0+" "+dp+" "+d1+" "+strconv.FormatInt(int64(lat), 10), strconv.FormatInt(int64(ttl), 10)+" "+res)
+	x.r.Case("loader" + prov + strconv.FormatInt(int64(d), 10) + ":" + strconv.FormatInt(int64(lat), 10))
 	x.r.Count("loader:" + prov)
+	switch {
+	case lat == 0:
+		x.r.Count("loaderlat:0")
+	case lat < time.Millisecond:
+		x.r.Count("loaderlat:<1ms")
+	case lat < time.Second:
+		x.r.Count("loaderlat:<1s")
+	default:
+		x.r.Count("loaderlat:>=1s")
+	}
+	if withLeaf && prov == "cert" {
+		// where the certificate stands when the provider hands it over: already inside the skew (1 s floor),
+		// in the window where the TTL is the remaining validity, or long-lived (5 min cap)
+		switch rem := na.Sub(tp) - time.Minute; {
+		case rem <= 0 && na.Sub(t0) > time.Minute:
+			x.r.Count("loaderrem:expired-while-loading")
+		case rem <= 0:
+			x.r.Count("loaderrem:expired")
+		case rem < 5*time.Minute:
+			x.r.Count("loaderrem:window")
+		default:
+			x.r.Count("loaderrem:capped")
+		}
+	}
 	x.prov.cert = x.keys[0].cert
 }
 
@@ -632,7 +667,7 @@ func (x *runner) keyByName(n string) keyKind {
 
 func main() {
 	r := hlib.Start()
-	r.Rule = "cases: a hostname bound to one of 4 clients (or unbound), then 8..20 GetCertificate / Sign calls by owner / same-token-other-id / other clients with 7 proof kinds (real hashcash), KV failures, provider cert/fail/empty, key kinds ecdsa / rsa / ed25519 / non-signer / failing signer, every algo 0..5, digest lengths 0..65 biased to 31..33/47..49/63..65 (signatures verified with the public key); TTL: leaf / DER-parsed / missing leaf with NotAfter-now swept over a boundary lattice around skew and skew+5min (±1ns, ±1s) and random values in ±100 years; loader TTL bracketed by the clock before/after. non-trivial = a call with a valid proof of work, or a TTL evaluation"
+	r.Rule = "cases: a hostname bound to one of 4 clients (or unbound), then 8..20 GetCertificate / Sign calls by owner / same-token-other-id / other clients with 7 proof kinds (real hashcash), KV failures, provider cert/fail/empty, key kinds ecdsa / rsa / ed25519 / non-signer / failing signer, every algo 0..5, digest lengths 0..65 biased to 31..33/47..49/63..65 (signatures verified with the public key); TTL: leaf / DER-parsed / missing leaf with NotAfter-now swept over a boundary lattice around skew and skew+5min (±1ns, ±1s) and random values in ±100 years; cache loader with provider latencies 0..25 ms and 1.1..1.4 s on certificates from inside the skew to beyond the 5 min cap, TTL bracketed by clock readings before the call / when the provider returns / after. non-trivial = a call with a valid proof of work, or a TTL evaluation"
 	rng := hlib.NewRng(r.Seed)
 	x := &runner{r: r, rng: rng, pw: newProofs(rng), keys: makeKeys()}
 
@@ -660,7 +695,11 @@ func main() {
 				x.ttl(t[1], time.Duration(d))
 			case "loader":
 				d, _ := strconv.ParseInt(t[2], 10, 64)
-				x.loader(t[1], time.Duration(d), t[2] != "-")
+				var lat int64
+				if len(t) >= 6 {
+					lat, _ = strconv.ParseInt(t[5], 10, 64)
+				}
+				x.loader(t[1], time.Duration(d), t[2] != "-", time.Duration(lat))
 			}
 		}
 		r.Finish()
@@ -774,10 +813,36 @@ func main() {
 		}
 		x.ttl(kind, d)
 	}
+	// the cache loader under certificate providers of varying latency (instant mock .. slower than the
+	// certificate's remaining validity): the entry's lifetime starts when the provider has answered
 	x.reset()
-	for i := 0; i < 40; i++ {
-		d := hlib.Pick(rng, lat) + time.Duration(rng.Intn(2_000_000)) - time.Millisecond
-		x.loader(hlib.Pick(rng, []string{"cert", "cert", "cert", "fail", "empty"}), d, rng.Intn(5) != 0)
+	nl, slow := 90, 1
+	if r.Thorough() {
+		nl, slow = 1200, 8
+	}
+	lats := []time.Duration{0, 0, 50 * time.Microsecond, 300 * time.Microsecond, time.Millisecond, 3 * time.Millisecond, 8 * time.Millisecond, 25 * time.Millisecond}
+	for i := 0; i < nl; i++ {
+		var d time.Duration
+		switch rng.Intn(3) {
+		case 0:
+			d = hlib.Pick(rng, lat) + time.Duration(rng.Intn(2_000_000)) - time.Millisecond
+		case 1:
+			// anywhere from already inside the skew to beyond the 5 min cap
+			d = skew - 2*time.Second + time.Duration(rng.U64()%uint64(pos+6*time.Second))
+		default:
+			// close to the moment the certificate enters the skew: a slow provider can outlast it
+			d = skew + time.Duration(rng.Intn(60_000_000)) - 10*time.Millisecond
+		}
+		x.loader(hlib.Pick(rng, []string{"cert", "cert", "cert", "cert", "fail", "empty"}), d, rng.Intn(6) != 0, hlib.Pick(rng, lats))
+	}
+	// providers slower than the 1 s TTL floor: the certificate has more than 1 s (after skew) left when the
+	// lookup starts and is inside the skew, or has visibly less left, when it arrives
+	for i := 0; i < slow; i++ {
+		l := 1100*time.Millisecond + time.Duration(rng.Intn(300))*time.Millisecond
+		x.loader("cert", skew+l-time.Duration(1+rng.Intn(90))*time.Millisecond, true, l)
+		if i%2 == 1 {
+			x.loader("cert", skew+l+time.Duration(rng.Intn(int(4*time.Second))), true, l)
+		}
 	}
 	r.Finish()
 }
